@@ -130,14 +130,20 @@ fn components_to_ts(
 
     // Calculate days, allowing day overflow
     let base_days = ymd_to_days(norm_year, norm_month, 1);
-    let total_days = base_days + (day - 1) as i64;
+    let total_days = base_days + day as i64 - 1;
 
     let time_ms = hour as i64 * MS_PER_HOUR
         + minute as i64 * MS_PER_MINUTE
         + second as i64 * MS_PER_SECOND
         + ms as i64;
 
-    (total_days * MS_PER_DAY + time_ms) as f64
+    // Out-of-range components are legal input: compute wide and clip to the range a Date
+    // can represent (ECMAScript TimeClip) instead of overflowing.
+    let total = total_days as i128 * MS_PER_DAY as i128 + time_ms as i128;
+    if total.unsigned_abs() > 8_640_000_000_000_000 {
+        return f64::NAN;
+    }
+    total as f64
 }
 
 const WEEKDAY_NAMES: [&str; 7] = ["Sun", "Mon", "Tue", "Wed", "Thu", "Fri", "Sat"];
